@@ -147,6 +147,12 @@ def main(argv=None):
         import cardutil
         if not os.path.abspath(cardutil.__file__).startswith(os.path.abspath(core.REPO) + os.sep):
             raise core.Broken('cardutil imported from %s, not from %s' % (cardutil.__file__, core.REPO))
+        # the whole library is imported here, in the main thread of the parent, as an application does at its top:
+        # pool workers and (on the 'thread' axis) non-main threads then find it already imported by another thread
+        for name in ('iso8583', 'mciipm', 'card', 'key', 'pinblock', 'config', 'BitArray', 'cli', 'cli.mideu',
+                     'cli.paramconv', 'cli.mci_ipm_encode', 'cli.mci_ipm_param_encode', 'cli.mci_ipm_to_csv',
+                     'cli.mci_csv_to_ipm', 'cli.mci_ipm_param_to_csv'):
+            importlib.import_module('cardutil.' + name)
 
         if args.axis and args.axis_out:
             # child of a run on an environment axis: a slice of the tasks (or one case), result pickled for the parent
